@@ -758,22 +758,36 @@ class Recorder:
 
 
 def align_setup(ctx, m0):
-    """core index mappings (first + permuted variants), reference = re-posed, slightly distorted core, centred."""
+    """core index mappings (one atom set permuted, or several atom sets: disjoint / overlapping / mixed), reference = re-posed,
+    slightly distorted copy of the atoms of one of the mappings (first / middle / last), centred."""
     np = np_()
     rng = ctx.rng
     na = m0.n_atoms
-    core = rng.sample(range(na), min(na, rng.randint(3, 6)))
-    idxs = [core]
-    for _ in range(rng.randint(0, 2)):
-        p = core[:]
-        rng.shuffle(p)
-        idxs.append(p)
+    idxs, _ = site_mappings(rng, na, min(na, rng.randint(3, 6)), rng.randint(1, 3), rng.choice(MAP_MODES))
     R = np.array([[float(e) for e in r] for r in quat_matrix(rng)])
-    ref = np.asarray(m0.coords, dtype=float)[core] @ R
-    ref = ref + np.array([[rng.uniform(-0.05, 0.05) for _ in range(3)] for _ in core])
-    ref = ref - ref.mean(axis=0)
+    ref, _ = site_reference(rng, np.asarray(m0.coords, dtype=float), idxs, R)
     vec = None if rng.random() < 0.5 else [float(Fr(rng.randint(-512, 512), 64)) for _ in range(3)]
     return idxs, ref, vec
+
+
+def mapping_counts(idxs, results, pre="align"):
+    """input distribution of an alignment case: how the mappings relate, and where the best-fitting one stands"""
+    sets = [frozenset(ix) for ix in idxs]
+    if len(idxs) == 1:
+        rel = "single"
+    elif all(x == sets[0] for x in sets):
+        rel = "one-atom-set-permuted"
+    elif all(not (sets[i] & sets[j]) for i in range(len(sets)) for j in range(i)):
+        rel = "disjoint-atom-sets"
+    else:
+        rel = "overlapping-atom-sets"
+    out = [f"{pre}:mappings:{rel}"]
+    if len(idxs) > 1 and len(results) >= len(idxs):
+        rr = [r for _, r in results[:len(idxs)]]
+        b = min(range(len(rr)), key=lambda i: rr[i])
+        out.append(f"{pre}:best-mapping:" + ("first" if b == 0 else "last" if b == len(rr) - 1 else "middle")
+                   + ("" if rel in ("single", "one-atom-set-permuted") else ":other-atom-set" if sets[b] != sets[-1] else ":same-set-as-last"))
+    return out
 
 
 class RefGeom:
@@ -790,7 +804,8 @@ def run_align(ml, name, m0, idxs, ref, vec, repose=None):
     X0 = np.asarray(m.coords, dtype=float).copy()
     rec = Recorder()
     try:
-        r = m.align_to_ref_coords(rec, idxs, RefGeom(ref), vec)
+        # the callee works on its own copies of the arguments; the judgment below uses the values the caller passed
+        r = m.align_to_ref_coords(rec, [list(ix) for ix in idxs], RefGeom(np.array(ref, dtype=float)), None if vec is None else list(vec))
     except Exception as e:  # noqa
         return None, ("align:raises-" + type(e).__name__, f"{name}: align_to_ref_coords raised {e!r}"), {}, None
     X1 = np.asarray(m.coords, dtype=float).copy()
@@ -802,11 +817,12 @@ def run_align(ml, name, m0, idxs, ref, vec, repose=None):
         pose = X1 - (np.array(vec) if vec is not None else 0.0)
         achieved = min(float(np.sqrt(((pose[ix] - ref) ** 2).sum() / len(ix))) for ix in idxs)
         if abs(achieved - float(r)) > ORACLE_EPS:
-            viol = ("align:reported-rmsd-not-achieved", f"{name}: align_to_ref_coords returned {float(r):.9f} but the pose it leaves has RMSD {achieved:.9f}")
+            viol = ("align:reported-rmsd-not-achieved", f"{name}: align_to_ref_coords(mappings {idxs}) returned {float(r):.9f} but the pose it leaves has RMSD {achieved:.9f} "
+                    f"(least over the mappings{', after taking vec off' if vec is not None else ''})")
     resq = cq_list(f"({mq(M.tolist())}, {cq_Q(fr(rr))})" for M, rr in rec.results)
     term = (f"(CAlign {rowsq(X0.tolist())} {cq_list(natl(ix) for ix in idxs)} {cq_list(rowsq(P.tolist()) for P in rec.inputs)} "
             f"{resq} {cq_opt(vec, vq)} {rowsq(X1.tolist())} {cq_Q(fr(float(r)))})")
-    return term, viol, {}, float(r)
+    return term, viol, ({"counts": mapping_counts(idxs, rec.results)} if repose is None else {}), float(r)
 
 
 def run_ens_align(ml, ens0, idxs, ref, vec, repose=None):
@@ -818,7 +834,7 @@ def run_ens_align(ml, ens0, idxs, ref, vec, repose=None):
     E0 = np.asarray(ens.coords, dtype=float).copy()
     rec = Recorder()
     try:
-        rs = ens.align_to_ref_coords(rec, idxs, RefGeom(ref), vec)
+        rs = ens.align_to_ref_coords(rec, [list(ix) for ix in idxs], RefGeom(np.array(ref, dtype=float)), None if vec is None else list(vec))
     except Exception as e:  # noqa
         return None, ("align:ensemble-raises-" + type(e).__name__, f"ConformerEnsemble.align_to_ref_coords raised {e!r}"), {}
     E1 = np.asarray(ens.coords, dtype=float).copy()
@@ -846,14 +862,14 @@ def run_ens_align(ml, ens0, idxs, ref, vec, repose=None):
         ens2 = ml.ConformerEnsemble(ens0)
         ens2.coords = np.asarray(ens0.coords, dtype=float) @ Rp + tp
         try:
-            rs2 = ens2.align_to_ref_coords(Recorder(), idxs, RefGeom(ref), vec)
+            rs2 = ens2.align_to_ref_coords(Recorder(), [list(ix) for ix in idxs], RefGeom(np.array(ref, dtype=float)), None if vec is None else list(vec))
             dev = max(abs(float(x) - float(y)) for x, y in zip(rs, rs2))
             if dev > ORACLE_EPS:
                 viol = ("align:ensemble-pose-dependent", f"ConformerEnsemble.align_to_ref_coords(core {idxs[0]}) returned {[round(float(x), 6) for x in rs][:3]}..., "
                         f"but {[round(float(x), 6) for x in rs2][:3]}... after re-posing the same ensemble")
         except Exception as e:  # noqa
             viol = ("align:ensemble-raises-" + type(e).__name__, f"ConformerEnsemble.align_to_ref_coords raised {e!r} on a re-posed ensemble")
-    return term, viol, {}
+    return term, viol, {"counts": mapping_counts(idxs, rec.results, "ens-align")}
 
 
 # ------------------------------------------------------------------ ensembles of every shape (array-shape coincidences)
@@ -1124,14 +1140,9 @@ def ensx_align_setup(rng, E0, nmap):
     np = np_()
     nc, na = E0.shape[:2]
     core = pick_core(rng, nc, na)
-    idxs = [core]
-    for _ in range(nmap - 1):
-        p = core[:]
-        rng.shuffle(p)
-        idxs.append(p)
+    idxs, _ = site_mappings(rng, na, len(core), nmap, rng.choice(MAP_MODES))
     R = np.array(nontrivial_rot(rng))
-    ref = E0[0][core] @ R + np.array([[rng.uniform(-0.05, 0.05) for _ in range(3)] for _ in core])
-    ref = ref - ref.mean(axis=0)
+    ref, _ = site_reference(rng, E0[0], idxs, R)
     vec = None if rng.random() < 0.5 else [float(Fr(rng.randint(-512, 512), 64)) for _ in range(3)]
     return idxs, ref, vec
 
@@ -1148,7 +1159,7 @@ def run_ensx_align(ml, spec, idxs, ref, vec):
     nc, na = E0.shape[:2]
     rec = Recorder()
     try:
-        rs = ens.align_to_ref_coords(rec, idxs, RefGeom(ref), vec)
+        rs = ens.align_to_ref_coords(rec, [list(ix) for ix in idxs], RefGeom(np.array(ref, dtype=float)), None if vec is None else list(vec))
         rs = [float(x) for x in rs]
     except Exception as e:  # noqa
         return None, ("align:ensemble-raises-" + type(e).__name__, f"{tag}: ConformerEnsemble.align_to_ref_coords raised {e!r}"), info
@@ -1164,9 +1175,10 @@ def run_ensx_align(ml, spec, idxs, ref, vec):
         pose = E1[ci] - (np.array(vec) if vec is not None else 0.0)
         achieved = min(float(np.sqrt(((pose[ix] - ref) ** 2).sum() / len(ix))) for ix in idxs)
         if abs(achieved - rs[ci]) > ORACLE_EPS:
-            viol = ("align:ensemble-reported-rmsd-not-achieved", f"{tag}: conformer {ci}: returned {rs[ci]:.9f}, pose left has RMSD {achieved:.9f}")
+            viol = ("align:ensemble-reported-rmsd-not-achieved", f"{tag}: mappings {idxs}: conformer {ci}: returned {rs[ci]:.9f}, pose left has RMSD {achieved:.9f}")
             break
     k = len(idxs)
+    info["counts"] += mapping_counts(idxs, rec.results, "ens-align")
     if len(rec.results) != nc * k:
         return None, viol, dict(info, skipped="callback not called once per conformer and mapping")
     inq = cq_list(cq_list(rowsq(P.tolist()) for P in rec.inputs[i * k:(i + 1) * k]) for i in range(nc))
@@ -1181,7 +1193,7 @@ def run_ensx_align(ml, spec, idxs, ref, vec):
         ens2 = fresh_ens(ml, ens0)
         ens2.coords = np.asarray(ens0.coords, dtype=float) @ Rp + tp
         try:
-            rs2 = [float(x) for x in ens2.align_to_ref_coords(Recorder(), idxs, RefGeom(ref), vec)]
+            rs2 = [float(x) for x in ens2.align_to_ref_coords(Recorder(), [list(ix) for ix in idxs], RefGeom(np.array(ref, dtype=float)), None if vec is None else list(vec))]
             dev = max(abs(x - y) for x, y in zip(rs, rs2)) if len(rs2) == len(rs) else float("inf")
             if dev > ORACLE_EPS:
                 viol = ("align:ensemble-pose-dependent", f"{tag}: align_to_ref_coords(core {idxs[0]}) returned {[round(x, 6) for x in rs][:3]}..., "
@@ -1243,7 +1255,7 @@ def find_mol(ml, name):
 # the model's own graph at every step) is applied to that same state and compared with what the step left.
 SEQ_MOLS_QUICK = ["dmf_mol2#0", "pentane_confs_mol2#0", "hadd_test_mol2#0"]
 SEQ_MOLS = SEQ_MOLS_QUICK + ["fxyl_mol2#0", "pentane_confs_mol2#3", "isornitrate_mol2#0", "box_backbone_mol2#0"]
-SEQ_HOSTS = ["molecule", "molecule", "molecule", "molecule", "conformer-live", "conformer-fresh"]
+SEQ_HOSTS = ["molecule", "molecule", "molecule", "molecule", "conformer-live", "conformer-fresh", "conformer-iterated"]
 SEQ_TARGETS = [(0, 1), (1, 0), (1, 1), (-1, 2), (3, 2), (-5, 1), (2, 7), (-2, 3), (7, 3), (1, 5), (-4, 5)]
 SEQ_HEADER = HEADER.replace("Model.Rot.", "Model.Rot Model.RotSeq.")
 
@@ -1490,7 +1502,7 @@ def run_seq(ml, plan):
                 mc.coords = np.round((np.asarray(m0.coords, dtype=float) @ np.array(nontrivial_rot(r)) + np.array([r.uniform(-3, 3) for _ in range(3)])) * 4096.0) / 4096.0
             mols.append(mc)
         ens = ml.ConformerEnsemble(mols)
-        obj = ens[1]
+        obj = [cf for cf in ens][1] if host == "conformer-iterated" else ens[1]     # a handle kept from a finished loop
     counts = [f"seq-host:{host}", f"seq-designators:{desig}"]
     info = {"counts": counts}
     G0 = seq_graph(obj)
@@ -1696,6 +1708,499 @@ def seq_cases(ctx, rng=None):
             (lambda plan=plan: run_seq(ml, plan))
 
 
+# ------------------------------------------------------------------ arguments that are LIVE ROWS of the coordinate table
+# get_atom_coord(k) / coords[k] return a view of row k.  The usual idioms hand such a view straight to a callee:
+#   R = rotation_matrix_from_vectors(m.coords[k], w); m.transform(R)        put atom k along w   (also as v2, also both)
+#   R = rotation_matrix_from_axis(m.coords[k], t);    m.transform(R)        turn about atom k
+#   m.translate(m.coords[k]);  m.substructure(idx).translate(m.coords[k])
+# The callee gets the VALUE of the row: the table is the same after the matrix was computed, and the motion carried out
+# afterwards keeps every distance / handedness and has the documented effect (Model/RotViews.v: orient_row,
+# turn_about_row, shift_by_row).  Every other family passes lists / fresh arrays, where a callee writing into its
+# argument cannot be seen.
+HEADER_V = HEADER.replace("Model.Rot.", "Model.Rot Model.RotEns Model.RotViews.")
+LIVE_ACCESS = ["get_atom_coord", "coords[k]", "coords[k,:]", "get_atom_coord(atom)"]
+LIVE_FNS = ["vectors", "vectors-as-target", "vectors-both", "axis", "translate", "sub-translate"]
+LIVE_HOSTS = ["molecule", "molecule", "conformer", "ensemble"]
+
+
+def live_row(obj, k, access):
+    if access == "get_atom_coord":
+        return obj.get_atom_coord(k)
+    if access == "get_atom_coord(atom)":
+        return obj.get_atom_coord(obj.atoms[k])
+    if access == "coords[k]":
+        return obj.coords[k]
+    return obj.coords[k, :]
+
+
+def gen_liverow(rng, name, na, fn, host, access):
+    """plan for one workflow; indices are positions in the molecule `name`"""
+    j = rng.randrange(na)
+    k = rng.choice([i for i in range(na) if i != j])
+    plan = {"kind": "liverow", "mol": name, "host": host, "access": access, "fn": fn, "center": j, "k": k}
+    if fn in ("vectors", "vectors-as-target"):
+        r = rng.random()
+        if r < 0.35:
+            w = [0.0, 0.0, 0.0]
+            w[rng.randrange(3)] = float(rng.choice((1, -1, 2)))
+        elif r < 0.7:
+            w = [float(x) for x in pyth_vec(rng)]
+        else:
+            w = [float(Fr(rng.randint(-2048, 2048), 128)) for _ in range(3)]
+            if not any(w):
+                w = [0.0, 0.0, 1.0]
+        plan["w"] = w
+    elif fn == "vectors-both":
+        others = [i for i in range(na) if i not in (j, k)]
+        plan["l"] = rng.choice(others) if others else None
+        if plan["l"] is None:
+            plan["fn"], plan["w"] = "vectors", [0.0, 0.0, 1.0]
+    elif fn == "axis":
+        plan["p"], plan["q"] = rng.choice([(1, 1), (-1, 2), (3, 2), (1, 0), (2, 7), (-5, 1), (1, 3)])
+    elif fn == "sub-translate":
+        plan["idx"] = rng.sample(range(na), rng.randint(1, max(1, na - 1)))
+    return plan
+
+
+def run_liverow(ml, plan):
+    np = np_()
+    from molli.math import rotation_matrix_from_vectors, rotation_matrix_from_axis
+    name, host, fn, k = plan["mol"], plan["host"], plan["fn"], plan["k"]
+    m0 = find_mol(ml, name)
+    if m0 is None:
+        return None, None, {"skipped": "no such molecule"}
+    counts = [f"liverow:fn={fn}", f"liverow:host={host}", f"liverow:access={plan['access']}"]
+    info = {"counts": counts}
+    ens, ci = None, 0
+    if host == "molecule":
+        obj = ml.Molecule(m0)
+    else:
+        import random
+        r = random.Random("c11-liverow-ens/" + name)
+        mols = []
+        for c in range(3):
+            mc = ml.Molecule(m0)
+            if c != 1:
+                mc.coords = np.round((np.asarray(m0.coords, dtype=float) @ np.array(nontrivial_rot(r)) + np.array([r.uniform(-3, 3) for _ in range(3)])) * 4096.0) / 4096.0
+            mols.append(mc)
+        ens = ml.ConformerEnsemble(mols)
+        ci = 1
+        obj = ens[ci]
+    lbl = f"{name} [{host}], atom {k} through {plan['access']}"
+    try:
+        obj.translate(-np.array(obj.get_atom_coord(plan["center"]), dtype=float))      # a fresh array: exact on the 2^-12 grid
+        X0 = np.asarray(obj.coords, dtype=float).copy()
+        E0 = None if ens is None else np.asarray(ens.coords, dtype=float).copy()
+        if not np.any(X0[k]) or (plan.get("l") is not None and not np.any(X0[plan["l"]])):
+            return None, None, dict(info, skipped="zero position vector")
+        a = live_row(obj, k, plan["access"])
+        if not (isinstance(a, np.ndarray) and np.shares_memory(a, obj.coords)):
+            counts.append("liverow:accessor-returns-a-copy")
+        M = None
+        tap = None
+        if fn.startswith("vectors"):
+            w = live_row(obj, plan["l"], plan["access"]) if fn == "vectors-both" else list(plan["w"])
+            wval = [float(x) for x in (X0[plan["l"]] if fn == "vectors-both" else plan["w"])]
+            with RandTap() as tap:
+                M = rotation_matrix_from_vectors(w, a) if fn == "vectors-as-target" else rotation_matrix_from_vectors(a, w)
+            call = (f"rotation_matrix_from_vectors({wval}, <row {k}>)" if fn == "vectors-as-target" else
+                    f"rotation_matrix_from_vectors(<row {k}>, " + (f"<row {plan['l']}>)" if fn == "vectors-both" else f"{wval})"))
+        elif fn == "axis":
+            st, ct = (Fr(0), Fr(-1)) if plan["q"] == 0 else rat_sincos(plan["p"], plan["q"])
+            angle = math.atan2(float(st), float(ct))
+            M = rotation_matrix_from_axis(a, angle)
+            call = f"rotation_matrix_from_axis(<row {k}>, {angle:.6f})"
+        Xm = np.asarray(obj.coords, dtype=float).copy()
+        if M is not None:
+            M = np.asarray(M, dtype=float)
+            if host == "ensemble":
+                ens.rotate(M)
+            else:
+                obj.transform(M)
+        elif fn == "translate":
+            obj.translate(a)
+            call = f"translate(<row {k}>)"
+        else:
+            obj.substructure(list(plan["idx"])).translate(a)
+            call = f"substructure({plan['idx'][:8]}).translate(<row {k}>)"
+        X1 = np.asarray(obj.coords, dtype=float).copy()
+        E1 = None if ens is None else np.asarray(ens.coords, dtype=float).copy()
+    except Exception as e:  # noqa
+        return None, (f"liverow:{fn}:raises-{type(e).__name__}", f"{lbl}: {fn} with a live coordinate row raised {e!r}"), info
+    scale = 1.0 + float(np.abs(X0).max())
+    viol = None
+    n = X0.shape[0]
+    if X1.shape != X0.shape or not np.isfinite(X1).all():
+        return None, (f"liverow:{fn}:bad-coordinates", f"{lbl}: {call} left coordinates of shape {X1.shape}, finite={bool(np.isfinite(X1).all())}"), info
+    if M is not None and np.abs(Xm - X0).max() > 1e-12 * scale:
+        rows = [i for i in range(n) if np.abs(Xm[i] - X0[i]).max() > 1e-12 * scale]
+        d0, d1 = dist_matrix(X0), dist_matrix(Xm)
+        i, j2 = np.unravel_index(np.abs(d0 - d1).argmax(), d0.shape)
+        viol = (f"liverow:{fn}:matrix-constructor-moved-atoms",
+                f"{lbl}: {call} only computes a matrix, yet it changed the coordinates of atoms {rows[:6]} of the structure the row belongs to "
+                f"(atom {rows[0]}: {X0[rows[0]].tolist()} -> {Xm[rows[0]].tolist()}; distance {i}-{j2}: {d0[i, j2]:.6f} -> {d1[i, j2]:.6f})")
+    if viol is None and M is not None:
+        rv = rotation_violation(M)
+        if rv:
+            viol = (f"liverow:{fn}:" + rv[0], f"{lbl}: {call}: {rv[1]}")
+    if viol is None and M is not None:
+        Z = np.zeros((1, 3))
+        sv = shape_violation(np.vstack([X0, Z]), np.vstack([X1, Z]), range(n + 1), 91)
+        if sv:
+            viol = (f"liverow:{fn}:" + sv[0], f"{lbl}: {call} then transform (row {n} = the origin): {sv[1]}")
+        elif fn in ("vectors", "vectors-both"):
+            wv = np.array(wval)
+            want = np.linalg.norm(X0[k]) * wv / np.linalg.norm(wv)
+            if np.abs(X1[k] - want).max() > ORACLE_EPS * scale:
+                viol = (f"liverow:{fn}:atom-not-along-target", f"{lbl}: after {call} and transform atom {k} is at {X1[k].tolist()}, expected {want.tolist()}")
+        elif fn == "vectors-as-target":
+            wv = np.array(wval)
+            got = (wv / np.linalg.norm(wv)) @ M
+            want = X0[k] / np.linalg.norm(X0[k])
+            if np.abs(got - want).max() > ORACLE_EPS:
+                viol = (f"liverow:{fn}:does-not-map", f"{lbl}: {call} takes the direction of w to {got.tolist()}, the row pointed along {want.tolist()}")
+        elif fn == "axis":
+            if np.abs(X1[k] - X0[k]).max() > ORACLE_EPS * scale:
+                viol = ("liverow:axis:axis-atom-moved", f"{lbl}: after {call} and transform the atom on the axis went from {X0[k].tolist()} to {X1[k].tolist()}")
+            elif abs(np.trace(M) - (1 + 2 * math.cos(angle))) > ORACLE_EPS:
+                viol = ("liverow:axis:wrong-angle", f"{lbl}: {call}: trace {np.trace(M):.9f}, expected {1 + 2 * math.cos(angle):.9f}")
+    if viol is None and M is None:
+        sel = list(range(n)) if fn == "translate" else sorted(set(plan["idx"]))
+        want = X0.copy()
+        want[sel] = X0[sel] + X0[k]
+        if np.abs(X1 - want).max() > ORACLE_EPS * scale:
+            bad = [i for i in range(n) if np.abs(X1[i] - want[i]).max() > ORACLE_EPS * scale]
+            viol = (f"liverow:{fn}:wrong-result", f"{lbl}: {call} must move {'every atom' if fn == 'translate' else 'atoms ' + str(sel[:8])} by the value the row had "
+                    f"({X0[k].tolist()}) and nothing else; atoms {bad[:6]} are elsewhere (atom {bad[0]}: {X1[bad[0]].tolist()}, expected {want[bad[0]].tolist()})")
+    if viol is None and ens is not None:
+        for c in range(E0.shape[0]):
+            if c == ci:
+                continue
+            if host == "ensemble" and M is not None:
+                Z = np.zeros((1, 3))
+                sv = shape_violation(np.vstack([E0[c], Z]), np.vstack([E1[c], Z]), range(n + 1), 92)
+                if sv is None and np.abs(E1[c] - E0[c] @ M).max() > ORACLE_EPS * 4 * (1.0 + float(np.abs(E0).max())):
+                    sv = ("wrong-result", f"conformer {c} is not where rotate(R) puts it")
+                if sv:
+                    viol = (f"liverow:{fn}:ensemble-" + sv[0], f"{lbl}: {call} then ens.rotate: conformer {c}: {sv[1]}")
+                    break
+            elif np.abs(E1[c] - E0[c]).max() > 0:
+                viol = (f"liverow:{fn}:other-conformer-moved", f"{lbl}: {call} on conformer {ci} changed conformer {c}")
+                break
+    # ---- the case term
+    qk = [fr(x) for x in X0[k]]
+    nk = qsqrt(fdot(qk, qk))
+    if fn.startswith("vectors"):
+        import inspect
+        d = inspect.signature(rotation_matrix_from_vectors).parameters.get("tol")
+        tolq = fr(float(d.default) if d is not None and isinstance(d.default, (int, float)) else TOL_DEFAULT)
+        qw = [fr(x) for x in wval]
+        nw = qsqrt(fdot(qw, qw))
+        c = fdot(qk, qw) / (nk * nw)
+        if abs(c - (tolq - 1)) < Fr(1, 10 ** 14) or not np.isfinite(M).all():
+            return None, viol, dict(info, skipped="branch decision within float rounding of the threshold")
+        swap = fn == "vectors-as-target"
+        ov = "None"
+        if c <= tolq - 1 and tap is not None and tap.draws:
+            RV = [fr(x) for x in tap.draws[-1]]
+            b = [x / nk for x in qk] if swap else [x / nw for x in qw]
+            kk = fdot(RV, b)
+            wv_ = [RV[i] - b[i] * kk for i in range(3)]
+            if any(wv_):
+                ov = f"(Some ({vq(wv_)}, {cq_Q(qsqrt(fdot(wv_, wv_)))}))"
+        term = (f"(VOrient {cq_Q(tolq)} {rowsq(X0.tolist())} {cq_nat(k)} {'true' if swap else 'false'} {vq(qw)} {cq_Q(nk)} {cq_Q(nw)} {ov} "
+                f"{mq(M.tolist())} {rowsq(Xm.tolist())} {rowsq(X1.tolist())})")
+    elif fn == "axis":
+        if not np.isfinite(M).all():
+            return None, viol, info
+        term = (f"(VOrientAxis {rowsq(X0.tolist())} {cq_nat(k)} {cq_Q(nk)} {cq_Q(st)} {cq_Q(ct)} {mq(M.tolist())} "
+                f"{rowsq(Xm.tolist())} {rowsq(X1.tolist())})")
+    else:
+        idxq = "None" if fn == "translate" else f"(Some {natl(plan['idx'])})"
+        term = f"(VShiftRow {rowsq(X0.tolist())} {idxq} {cq_nat(k)} {rowsq(X1.tolist())})"
+    return term, viol, info
+
+
+def liverow_cases(ctx, rng=None):
+    import molli as ml
+    rng = rng or ctx.rng
+    names = [nm for nm, _ in load_mols(ml) if not (nm.startswith("pentane") and not nm.endswith("#0"))]
+    names += [f"tree:{n}:{rng.randrange(10 ** 6)}" for n in (3, 4, 7)]
+    reps = 1 if not ctx.thorough else 6
+    s = 0
+    for name in names:
+        m = find_mol(ml, name)
+        if m is None or m.n_atoms < 3:
+            continue
+        for r in range(reps):
+            for fn in LIVE_FNS:
+                host = LIVE_HOSTS[s % len(LIVE_HOSTS)]
+                if host == "ensemble" and not fn.startswith("vectors") and fn != "axis":
+                    host = "conformer"
+                access = LIVE_ACCESS[(s // 2 + s) % len(LIVE_ACCESS)]
+                s += 1
+                if m.n_atoms > 40 and not ctx.thorough and s % 2:
+                    continue
+                plan = gen_liverow(rng, name, m.n_atoms, fn, host, access)
+                yield "liverow:" + plan["fn"], ("liverow", json.dumps(plan, sort_keys=True)), plan, (lambda plan=plan: run_liverow(ml, plan))
+
+
+# ------------------------------------------------------------------ handles collected first, used later
+# A Conformer is an (ensemble, k) handle, a Substructure a (parent, atoms) handle.  Every other family uses a handle
+# right after obtaining it.  Here handles are COLLECTED -- list(ens), comprehensions, zip / sorted / max over the
+# ensemble, two interleaved iterators, ens[i], ens[a:b], [cf.substructure(idx) for cf in ens]; for a molecule several
+# (overlapping) substructures -- and the edits follow afterwards, in another order, through the conformer or through a
+# substructure of it (taken at collection time or at edit time), by translate / transform / coords assignment.  After
+# every edit exactly the selected rows of the conformer the handle was taken for have moved, by that motion, and every
+# other row of the ensemble is bit-identical (Model/RotViews.v: view_edits; `vcheck`).
+VIEW_COLLECT = ["list", "comprehension", "substructure-comprehension", "zip", "sorted", "next", "interleaved-iterators",
+                "reversed-list", "enumerate-dict", "max", "getitem", "slice", "generator-then-list"]
+VIEW_OPS = ["t", "r", "t", "r", "t-assign", "r-assign"]
+
+
+def collect_views(ens, mode, E0, idx):
+    """(handles, conformer each handle was taken for).  `idx` only for the substructure-comprehension mode."""
+    np = np_()
+    nc = ens.n_conformers
+    key = [float(E0[c][:, 0].sum() - 0.37 * E0[c][:, 1].sum()) for c in range(nc)]
+    if mode == "list":
+        return list(ens), list(range(nc))
+    if mode == "comprehension":
+        return [cf for cf in ens], list(range(nc))
+    if mode == "substructure-comprehension":
+        return [cf.substructure(list(idx)) for cf in ens], list(range(nc))
+    if mode == "zip":
+        return [cf for cf, _ in zip(ens, range(nc))], list(range(nc))
+    if mode == "sorted":
+        ks = iter(key)
+        return sorted(ens, key=lambda cf: next(ks)), sorted(range(nc), key=lambda c: key[c])
+    if mode == "next":
+        it = iter(ens)
+        return [next(it) for _ in range(nc)], list(range(nc))
+    if mode == "interleaved-iterators":
+        it1, it2 = iter(ens), iter(ens)
+        out = []
+        for c in range(nc):
+            out.append(next(it1))
+            if c % 2 == 0:
+                next(it2)
+        return out, list(range(nc))
+    if mode == "reversed-list":
+        return list(ens)[::-1], list(range(nc))[::-1]
+    if mode == "enumerate-dict":
+        d = {i: cf for i, cf in enumerate(ens)}
+        return [d[i] for i in range(nc)], list(range(nc))
+    if mode == "max":
+        ks = iter(key)
+        ks2 = iter(key)
+        return ([max(ens, key=lambda cf: next(ks)), min(ens, key=lambda cf: next(ks2))],
+                [max(range(nc), key=lambda c: key[c]), min(range(nc), key=lambda c: key[c])])
+    if mode == "getitem":
+        return [ens[c] for c in range(nc)], list(range(nc))
+    if mode == "slice":
+        return ens[0:nc], list(range(nc))
+    return list(cf for cf in ens), list(range(nc))          # generator-then-list
+
+
+def gen_views(rng, spec, nc, na, mode):
+    """plan: collection mode + edits [position among the handles, op, argument, substructure indices or None]"""
+    def q():
+        return float(Fr(rng.randint(-2048, 2048), 128))
+    nh = 2 if mode == "max" else nc
+    coll_idx = rng.sample(range(na), rng.randint(1, max(1, na - 1))) if mode == "substructure-comprehension" else None
+    order = list(range(nh))
+    rng.shuffle(order)
+    if nh > 1 and order[-1] == nh - 1:           # do not finish on the handle produced last
+        order[0], order[-1] = order[-1], order[0]
+    order = order[:max(2, min(nh, 5))] + ([rng.randrange(nh)] if rng.random() < 0.5 else [])
+    edits = []
+    for pos in order:
+        op = rng.choice(VIEW_OPS)
+        arg = [q(), q(), q()] if op.startswith("t") else nontrivial_rot(rng)
+        idx = None
+        if coll_idx is None and rng.random() < 0.5:
+            idx = rng.sample(range(na), rng.randint(1, max(1, na - 1)))
+        edits.append([pos, op, arg, idx])
+    return {"kind": "views", "spec": spec, "collect": mode, "collect_idx": coll_idx, "edits": edits}
+
+
+def gen_molviews(rng, name, na):
+    def q():
+        return float(Fr(rng.randint(-2048, 2048), 128))
+    nh = rng.randint(2, 4)
+    lists = [rng.sample(range(na), rng.randint(1, max(1, na - 1))) for _ in range(nh)]
+    order = list(range(nh)) + [rng.randrange(nh)]
+    rng.shuffle(order)
+    edits = []
+    for pos in order:
+        op = rng.choice(VIEW_OPS)
+        edits.append([pos, op, [q(), q(), q()] if op.startswith("t") else nontrivial_rot(rng), None])
+    return {"kind": "views", "spec": {"src": "mol", "mol": name}, "collect": "molecule-substructures", "lists": lists, "edits": edits}
+
+
+def run_views(ml, plan):
+    np = np_()
+    spec, mode = plan["spec"], plan["collect"]
+    counts = ["views:collect=" + mode]
+    info = {"counts": counts}
+    try:
+        if spec["src"] == "mol":
+            m0 = find_mol(ml, spec["mol"])
+            if m0 is None:
+                return None, None, {"skipped": "no such molecule"}
+            host = ml.Molecule(m0)
+            tag = f"{spec['mol']}: substructures {[l[:4] for l in plan['lists']]} collected first"
+            E0 = np.asarray(host.coords, dtype=float).copy()[None, :, :]
+            handles = [host.substructure(list(l)) for l in plan["lists"]]
+            expect = [0] * len(handles)
+            hidx = [list(l) for l in plan["lists"]]
+            get = lambda: np.asarray(host.coords, dtype=float).copy()[None, :, :]
+        else:
+            ens0 = build_ens(ml, spec)
+            host = fresh_ens(ml, ens0)
+            E0 = np.asarray(host.coords, dtype=float).copy()
+            tag = f"{spec_tag(spec, host)}: handles collected by {mode}"
+            handles, expect = collect_views(host, mode, E0, plan.get("collect_idx"))
+            hidx = [plan.get("collect_idx")] * len(handles)
+            get = lambda: np.asarray(host.coords, dtype=float).copy()
+            counts += ["views-shape:" + c for c in shape_classes(host.n_conformers, host.n_atoms)]
+    except Exception as e:  # noqa
+        return None, (f"views:collect:raises-{type(e).__name__}", f"collecting handles by {mode} raised {e!r}"), info
+    if len(handles) != len(expect):
+        return None, ("views:collect:wrong-number-of-handles", f"{tag}: {len(handles)} handles for {len(expect)} conformers"), info
+    cur = E0.copy()
+    viol = None
+    vedits = []
+    scale = 1.0 + float(np.abs(E0).max())
+    for step, (pos, op, arg, idx) in enumerate(plan["edits"]):
+        if pos >= len(handles):
+            continue
+        c = expect[pos]
+        h = handles[pos]
+        sel_idx = hidx[pos] if hidx[pos] is not None else idx
+        kindname = {"t": "translate", "r": "transform", "t-assign": "coords-assign", "r-assign": "coords-assign"}[op]
+        counts.append("views:op=" + kindname + (":substructure-at-collection" if hidx[pos] is not None else ":substructure-at-edit" if idx is not None else ":whole"))
+        try:
+            tgt = h if (hidx[pos] is not None or idx is None) else h.substructure(list(idx))
+            if op == "t":
+                tgt.translate(list(arg))
+            elif op == "r":
+                tgt.transform(np.array(arg))
+            elif op == "t-assign":
+                tgt.coords = np.asarray(tgt.coords, dtype=float) + np.array(arg)
+            else:
+                tgt.coords = np.asarray(tgt.coords, dtype=float) @ np.array(arg)
+        except Exception as e:  # noqa
+            viol = (f"views:{kindname}:raises-{type(e).__name__}", f"{tag}: edit {step} ({kindname} through handle {pos}, taken for conformer {c}) raised {e!r}")
+            break
+        new = get()
+        if new.shape != cur.shape:
+            viol = (f"views:{kindname}:shape-changed", f"{tag}: coordinates {cur.shape} -> {new.shape}")
+            break
+        sel = list(range(cur.shape[1])) if sel_idx is None else sorted(set(sel_idx))
+        want = cur.copy()
+        want[c][sel] = (cur[c][sel] + np.array(arg)) if op.startswith("t") else (cur[c][sel] @ np.array(arg))
+        mask = np.ones(cur.shape[:2], dtype=bool)
+        mask[c, sel] = False
+        ch = np.abs(new - cur).max(axis=2)
+        if (ch > 0)[mask].any():
+            bad = np.argwhere((ch > 0) & mask).tolist()
+            confs = sorted({b[0] for b in bad})
+            stayed = bool(np.abs(new[c][sel] - cur[c][sel]).max() == 0)
+            viol = (f"views:{kindname}:other-rows-moved",
+                    f"{tag}: edit {step}: {kindname} through handle {pos}, which was taken for conformer {c}"
+                    f"{'' if sel_idx is None else ', atoms ' + str(sel[:8])}, changed (conformer, atom) rows {bad[:6]} (conformers {confs[:6]})"
+                    f"{'; the rows it should have moved stayed where they were' if stayed else ''}")
+            break
+        if np.abs(new - want).max() > ORACLE_EPS * scale:
+            viol = (f"views:{kindname}:selected-rows-wrong",
+                    f"{tag}: edit {step}: {kindname} through handle {pos} (conformer {c}): the selected rows are {np.abs(new - want).max():.6f} away from where that motion puts them")
+            break
+        gop = f"(GTranslate {vq(arg)})" if op.startswith("t") else f"(GTransform {mq(arg)})"
+        vedits.append(f"(VEdit {cq_nat(c)} {'None' if sel_idx is None else '(Some ' + natl(sel_idx) + ')'} {gop})")
+        cur = new
+    if not vedits:
+        return None, viol, info
+    term = f"(VViews {ensq(E0.tolist())} {cq_list(vedits)} {ensq(cur.tolist())})"
+    return term, viol, info
+
+
+def views_cases(ctx, specs, rng=None):
+    import molli as ml
+    rng = rng or ctx.rng
+    s = rng.randrange(len(VIEW_COLLECT))
+    for spec in specs:
+        ens0 = build_ens(ml, spec)
+        nc, na = ens0.n_conformers, ens0.n_atoms
+        if nc < 2:
+            continue
+        for r in range(2 if not ctx.thorough else 6):
+            mode = VIEW_COLLECT[s % len(VIEW_COLLECT)]
+            s += 1
+            plan = gen_views(rng, spec, nc, na, mode)
+            yield "views:ensemble", ("views", json.dumps(plan, sort_keys=True)), plan, (lambda plan=plan: run_views(ml, plan))
+    names = [nm for nm, _ in load_mols(ml) if not (nm.startswith("pentane") and not nm.endswith("#0"))]
+    for name in (names[:4] if not ctx.thorough else names):
+        m = find_mol(ml, name)
+        if m is None or m.n_atoms < 2:
+            continue
+        for r in range(1 if not ctx.thorough else 4):
+            plan = gen_molviews(rng, name, m.n_atoms)
+            yield "views:molecule", ("views", json.dumps(plan, sort_keys=True)), plan, (lambda plan=plan: run_views(ml, plan))
+
+
+# ------------------------------------------------------------------ mappings for alignment
+# Symmetry-equivalent mappings permute ONE atom set (one centroid).  get_substr_indices of a motif that occurs at
+# several places yields mappings over DIFFERENT atom sets: disjoint or overlapping, the one that fits best first, in
+# the middle or last.  The pose left and the value returned must agree for all of them.
+MAP_MODES = ["permuted", "disjoint", "overlapping", "mixed", "disjoint", "overlapping"]
+
+
+def site_mappings(rng, na, size, nmap, mode):
+    """nmap index lists of length `size` over range(na) according to `mode` (falls back when na is too small)"""
+    size = max(1, min(size, na))
+    core = rng.sample(range(na), size)
+    if nmap <= 1:
+        return [core], "single"
+    if mode in ("disjoint", "mixed") and na < 2 * size:
+        mode = "overlapping"
+    if mode == "overlapping" and (na <= size or size < 2):
+        mode = "permuted" if na <= size else "disjoint" if na >= 2 * size else "permuted"
+    idxs = [core]
+    used = set(core)
+    for j in range(1, nmap):
+        if mode == "permuted" or (mode == "mixed" and j % 2 == 1):
+            p = idxs[rng.randrange(len(idxs))][:]
+            rng.shuffle(p)
+        elif mode in ("disjoint", "mixed"):
+            free = [i for i in range(na) if i not in used]
+            if len(free) < size:
+                free = [i for i in range(na) if i not in set(core)]
+            p = rng.sample(free, size)
+            used |= set(p)
+        else:
+            keep = rng.sample(core, rng.randint(1, size - 1))
+            free = [i for i in range(na) if i not in set(core)]
+            p = keep + rng.sample(free, min(len(free), size - len(keep)))
+            if len(p) < size:
+                p = core[:]
+            rng.shuffle(p)
+        idxs.append(p)
+    return idxs, mode
+
+
+def site_reference(rng, X, idxs, R):
+    """reference = rigid, slightly distorted copy of the atoms of ONE of the mappings (which one: first / middle / last), centred"""
+    np = np_()
+    b = rng.choice([0, len(idxs) - 1, rng.randrange(len(idxs))]) if len(idxs) > 1 else 0
+    ref = np.asarray(X, dtype=float)[idxs[b]] @ R
+    ref = ref + np.array([[rng.uniform(-0.05, 0.05) for _ in range(3)] for _ in idxs[b]])
+    ref = ref - ref.mean(axis=0)
+    where = "single" if len(idxs) == 1 else "first" if b == 0 else "last" if b == len(idxs) - 1 else "middle"
+    return ref, where
+
+
+
 # ------------------------------------------------------------------ the run
 def all_cases(ctx):
     """Yields (kind, key, replay_dict, thunk) ; thunk() -> (term|None, violation|None, info)."""
@@ -1782,6 +2287,10 @@ def all_cases(ctx):
         idxs, ref, vec = ensx_align_setup(rng, np.asarray(m.coords, dtype=float)[None, :, :], rng.randint(1, 3))
         rd = {"kind": "align", "mol": name, "idxs": idxs, "ref": ref.tolist(), "vec": vec}
         yield "align:molecule:tiny", ("align", name, json.dumps(idxs), json.dumps(ref.tolist())), rd, (lambda name=name, m=m, idxs=idxs, ref=ref, vec=vec, u=rng.random(): run_align_case(ml, name, m, idxs, ref, vec, u))
+    # handles collected first (iteration over the ensemble, several substructures of a molecule), used afterwards
+    yield from views_cases(ctx, specs)
+    # live rows of the coordinate table handed to rotation_matrix_from_vectors / _from_axis / translate
+    yield from liverow_cases(ctx)
     # sessions: sequences of geometric operations and connectivity edits on one live object
     yield from seq_cases(ctx)
 
@@ -1846,6 +2355,7 @@ def run(ctx, rep):
     terms, owners = [], []
     eterms, eowners = [], []
     sterms, sowners = [], []
+    vterms, vowners = [], []
     found = False
     oracle_viol = {}
     n_by_kind = {}
@@ -1881,6 +2391,10 @@ def run(ctx, rep):
             sterms.append(term)
             sowners.append(i)
             continue
+        if term.startswith(("(VViews", "(VOrient", "(VShiftRow")):
+            vterms.append(term)
+            vowners.append(i)
+            continue
         terms.append(term)
         owners.append(i)
     # spread the expensive kinds evenly over the shards (cases are generated kind by kind)
@@ -1907,14 +2421,23 @@ def run(ctx, rep):
     sterms = [sterms[j] for j in sorder]
     sowners = [sowners[j] for j in sorder]
     sbad = vlib.run_shards(ctx, rep, "c11s", SEQ_HEADER, "scheck", sterms, shard=max(1, -(-len(sterms) // snsh)), timeout=900, case_type="scase")
-    rep.extra["shard_cases"] = len(terms) + len(eterms) + len(sterms)
-    if bad is None or ebad is None or sbad is None:
+    # handles / live-row arguments (Model/RotViews.v, `vcheck`): biggest first, dealt round-robin
+    vsize = 30 if not ctx.thorough else 60
+    vnsh = max(1, -(-len(vterms) // vsize))
+    vorder = sorted(range(len(vterms)), key=lambda j: -len(vterms[j]))
+    vorder = [vorder[j] for s0 in range(vnsh) for j in range(s0, len(vorder), vnsh)]
+    vterms = [vterms[j] for j in vorder]
+    vowners = [vowners[j] for j in vorder]
+    vbad = vlib.run_shards(ctx, rep, "c11v", HEADER_V, "vcheck", vterms, shard=max(1, -(-len(vterms) // vnsh)), timeout=900, case_type="vcase")
+    rep.extra["shard_cases"] = len(terms) + len(eterms) + len(sterms) + len(vterms)
+    if bad is None or ebad is None or sbad is None or vbad is None:
         vlib.broken_obligation(rep, "corr_c11", "a correspondence shard did not compile: " + str(rep.extra.get("shard_errors", ""))[-800:], found)
         bad = bad or []
         ebad = ebad or []
         sbad = sbad or []
-    bad = list(bad) + [len(terms) + b for b in ebad] + [len(terms) + len(eterms) + b for b in sbad]
-    owners = owners + eowners + sowners
+        vbad = vbad or []
+    bad = list(bad) + [len(terms) + b for b in ebad] + [len(terms) + len(eterms) + b for b in sbad] + [len(terms) + len(eterms) + len(sterms) + b for b in vbad]
+    owners = owners + eowners + sowners + vowners
     if bad:
         unexplained = [owners[b] for b in bad if owners[b] not in oracle_viol]
         rep.extra["mismatching_cases"] = [items[owners[b]][2] for b in bad[:10]]
@@ -1999,6 +2522,10 @@ def replay(ctx, data):
             res = run_ensx_align(ml, data["spec"], data["idxs"], np.array(data["ref"]), data["vec"])
         elif k == "seq":
             res = run_seq(ml, data)
+        elif k == "views":
+            res = run_views(ml, data)
+        elif k == "liverow":
+            res = run_liverow(ml, data)
     if res is None or res[1] is None:
         return []
     return [vlib.Violation(pre + res[1][0], res[1][1], data)]
